@@ -191,7 +191,7 @@ def churn(r):
         elif k == 'sortcb':
             body.append("keep.push([%s].sort(|a, b| { let t = ['${a}', '${b}']; a - b })[0]);" % ", ".join(str(r.randint(0, 9)) for _ in range(r.randint(2, 6))))
         elif k == 'slice':
-            body.append("keep.push('abcdefgh${%d}'.slice(%d, %d) + 'x'.up());" % (v, r.randint(0, 3), r.randint(4, 8)))
+            body.append("keep.push('abcdefgh${%d}'.slice(%d, %d) + 'x'.upCase());" % (v, r.randint(0, 3), r.randint(4, 8)))
         elif k == 'interp':
             body.append("keep.push('${[1, '${%d}', [2]]} ${{'k': %d}.len()} ${(1, 2)}');" % (v, v))
         elif k == 'nested_fn':
